@@ -53,6 +53,10 @@ func genC13(t *rapid.T) c13Case {
 		}
 		c.Stack.DeadlineNs = d
 		bound = d - c.ArriveNs
+		if rapid.IntRange(0, 5).Draw(t, "farDeadline") == 0 {
+			// "practically never": the caller is bounded by cancellation only
+			c.Stack.DeadlineFar, bound = rapid.IntRange(1, 3).Draw(t, "far"), -1
+		}
 	case "blocking":
 		c.Stack.TimeoutNs = rapid.SampledFrom([]int64{0, 0, 1_000_000, 50_000_000}).Draw(t, "timeout") // each expiry of this (retry) timer leaves a helper goroutine parked until the next release: keep the count per case small
 	}
@@ -155,6 +159,9 @@ func runC13InBubble(c c13Case) (out kit.Outcome) {
 	}
 	// let every bound pass
 	horizon := A + c.Stack.effTimeout() + time.Duration(maxI64(c.Stack.DeadlineNs, 0)) + 2*time.Second
+	if c.Stack.DeadlineFar > 0 {
+		horizon = A + 12*time.Second
+	}
 	if d := horizon - w.now(); d > 0 {
 		time.Sleep(d)
 	}
@@ -174,6 +181,9 @@ func runC13InBubble(c c13Case) (out kit.Outcome) {
 		cancelAt = time.Duration(c.CancelNs)
 	}
 	D := time.Duration(c.Stack.DeadlineNs)
+	if c.Stack.DeadlineFar > 0 {
+		D = never
+	}
 	preCancelled := cancelAt <= A
 	bound := never
 	boundWhy := ""
@@ -313,7 +323,7 @@ func runC13InBubble(c c13Case) (out kit.Outcome) {
 		return kit.Viol(kind+":stuck", "%s", msg)
 	}
 	blockedForReal := bound > A && R > A
-	exactDeadline := kind == "deadline" && bound == D && D >= A
+	exactDeadline := kind == "deadline" && bound == D && D >= A && D != never
 	out.NonTrivial = blockedForReal && (c.HasCancel || exactDeadline)
 	out.Labels = []string{"kind:" + kind}
 	if blockedForReal {
@@ -324,6 +334,9 @@ func runC13InBubble(c c13Case) (out kit.Outcome) {
 	}
 	if preCancelled {
 		out.Labels = append(out.Labels, "pre-cancelled")
+	}
+	if c.Stack.DeadlineFar > 0 {
+		out.Labels = append(out.Labels, "deadline-far-future")
 	}
 	if kind == "deadline" && A >= D {
 		out.Labels = append(out.Labels, "at-or-after-deadline")
